@@ -5,6 +5,7 @@ package c12
 import (
 	"context"
 	"fmt"
+	"k8s.io/utils/ptr"
 	"sort"
 	"testing"
 	"time"
@@ -62,6 +63,9 @@ type content struct {
 	annos  map[string]string
 	step   string
 	fn     string
+	// legacy: the Pipeline-mode composition still carries this resource template
+	// and a patch set (what a composition migrated in place from Resources mode looks like)
+	legacy string
 }
 
 func xrd() *v1.CompositeResourceDefinition {
@@ -135,6 +139,9 @@ func (prop) Run(t *testing.T, s *sim.Sim, res *runner.Result) {
 		}
 		if tp.Next(2) == 1 {
 			c.labels["channel"] = fmt.Sprintf("l%d", i%2)
+		}
+		if tp.Next(4) == 0 {
+			c.legacy = fmt.Sprintf("t%d", i%2)
 		}
 		dup := false
 		for _, o := range w.pool {
@@ -222,7 +229,7 @@ func (prop) Run(t *testing.T, s *sim.Sim, res *runner.Result) {
 }
 
 func sameContent(a, b content) bool {
-	return a.step == b.step && a.fn == b.fn && fmt.Sprint(a.labels) == fmt.Sprint(b.labels) && fmt.Sprint(a.annos) == fmt.Sprint(b.annos)
+	return a.step == b.step && a.fn == b.fn && a.legacy == b.legacy && fmt.Sprint(a.labels) == fmt.Sprint(b.labels) && fmt.Sprint(a.annos) == fmt.Sprint(b.annos)
 }
 
 func (w *world) applyContent(comp *v1.Composition, c content) {
@@ -239,6 +246,12 @@ func (w *world) applyContent(comp *v1.Composition, c content) {
 		CompositeTypeRef: v1.TypeReference{APIVersion: "example.org/v1", Kind: "XThing"},
 		Mode:             &mode,
 		Pipeline:         []v1.PipelineStep{{Step: c.step, FunctionRef: v1.FunctionReference{Name: c.fn}}},
+	}
+	if c.legacy != "" {
+		comp.Spec.PatchSets = []v1.PatchSet{{Name: "common", Patches: []v1.Patch{{Type: v1.PatchTypeFromCompositeFieldPath, FromFieldPath: ptr.To("spec.size"), ToFieldPath: ptr.To("spec.size")}}}}
+		comp.Spec.Resources = []v1.ComposedTemplate{{Name: ptr.To(c.legacy), Base: kruntime.RawExtension{Raw: []byte(`{"apiVersion":"things.example.org/v1","kind":"Thing","spec":{"tag":"` + c.legacy + `"}}`)},
+			Patches:         []v1.Patch{{Type: v1.PatchTypePatchSet, PatchSetName: ptr.To("common")}},
+			ReadinessChecks: []v1.ReadinessCheck{{Type: v1.ReadinessCheckTypeNone}}}}
 	}
 }
 
